@@ -19,18 +19,32 @@ let zs = string_of_z
 let hexz l = hex_of_bytes (List.map int_of_z l)
 let unhexz s = List.map z_of_int (bytes_of_hex s)
 
-let parse_op tok : RingSpec.op option =
+(* the op alphabet of the Coq model, plus two calls the correspondence also exercises:
+   W:<n> / A:<n>  a write / amend of n bytes, n >= the buffer size, answered through RingHuge.huge_step and
+                  RingHuge.spec_huge_step (Properties_C05_huge.v: equal to ring_step / spec_step for every source
+                  of that length);
+   m              zix_ring_mlock: RingHuge.ring_mlock, the identity on the modelled state (the status it returns
+                  depends on the platform's RLIMIT_MEMLOCK and is not compared) *)
+type xop = Op of RingSpec.op | Huge of bool * BinNums.coq_Z | Mlock
+
+let parse_op tok : xop option =
   let arg () = String.sub tok 2 (String.length tok - 2) in
-  if tok = "z" then Some RingSpec.OReset
-  else if tok = "b" then Some RingSpec.OBegin
-  else if tok = "c" then Some RingSpec.OCommit
+  let op o = Some (Op o) in
+  if tok = "z" then op RingSpec.OReset
+  else if tok = "b" then op RingSpec.OBegin
+  else if tok = "c" then op RingSpec.OCommit
+  else if tok = "m" then Some Mlock
   else if String.length tok >= 3 && tok.[1] = ':' then
     (match tok.[0] with
-     | 'w' -> Some (RingSpec.OWrite (unhexz (arg ())))
-     | 'a' -> Some (RingSpec.OAmend (unhexz (arg ())))
-     | 'r' -> Some (RingSpec.ORead (z_of_string (arg ())))
-     | 'p' -> Some (RingSpec.OPeek (z_of_string (arg ())))
-     | 's' -> Some (RingSpec.OSkip (z_of_string (arg ())))
+     | 'w' -> op (RingSpec.OWrite (unhexz (arg ())))
+     | 'a' -> op (RingSpec.OAmend (unhexz (arg ())))
+     | 'r' -> op (RingSpec.ORead (z_of_string (arg ())))
+     | 'p' -> op (RingSpec.OPeek (z_of_string (arg ())))
+     | 's' -> op (RingSpec.OSkip (z_of_string (arg ())))
+     | 'W' | 'A' ->
+       let n = z_of_string (arg ()) in
+       if BinInt.Z.ltb (z_of_int 0) n && BinInt.Z.ltb n (z_of_string "4294967296")
+       then Some (Huge (tok.[0] = 'A', n)) else None
      | _ -> None)
   else None
 
@@ -38,10 +52,10 @@ let junk = z_of_int 0xA5  (* the C driver's allocator fills fresh blocks with th
 
 let status_name z = match int_of_z z with 0 -> "ok" | 2 -> "nomem" | n -> "st" ^ string_of_int n
 
-let ret_string (o : RingSpec.op) ret =
+let ret_string (o : xop) ret =
   match o with
-  | RingSpec.OReset | RingSpec.OBegin -> "."
-  | RingSpec.OAmend _ | RingSpec.OCommit -> status_name ret
+  | Mlock | Op RingSpec.OReset | Op RingSpec.OBegin -> "."
+  | Huge (true, _) | Op (RingSpec.OAmend _) | Op RingSpec.OCommit -> status_name ret
   | _ -> zs ret
 
 let model_line size ops =
@@ -51,7 +65,14 @@ let model_line size ops =
       (zs (RingModel.ring_write_space rg)) (zs (RingModel.ring_capacity rg)) in
   Buffer.add_string b ("cap=" ^ zs (RingModel.ring_capacity (fst !st)));
   List.iter (fun o ->
-      let (st', (ret, data)) = RingModel.ring_step !st o in
+      let (st', (ret, data)) =
+        match o with
+        | Huge (amend, n) ->
+          (* theorem huge_request_model applies only to n >= buffer size *)
+          if BinInt.Z.leb (RingModel.size (fst !st)) n then RingHuge.huge_step !st amend
+          else failwith "huge request smaller than the buffer"
+        | Mlock -> RingHuge.ring_mlock !st
+        | Op o -> RingModel.ring_step !st o in
       st := st';
       Buffer.add_string b (Printf.sprintf " %s:%s:%s" (ret_string o ret) (hexz data) (spaces (fst st'))))
     ops;
@@ -77,9 +98,10 @@ let spec_line size ops =
     List.iter (fun o ->
         if not !open_ then begin
           (match o with
-           | RingSpec.OBegin -> tx_failed := false
-           | RingSpec.OCommit -> if !tx_failed then open_ := true
-           | RingSpec.OAmend src ->
+           | Op RingSpec.OBegin -> tx_failed := false
+           | Op RingSpec.OCommit -> if !tx_failed then open_ := true
+           | Huge (true, _) -> tx_failed := true
+           | Op (RingSpec.OAmend src) ->
              (match !st.RingSpec.stx with
               | Some (p, room) ->
                 let total = BinInt.Z.add (RingSpec.len p) (RingSpec.len src) in
@@ -92,7 +114,12 @@ let spec_line size ops =
            | _ -> ())
         end;
         if not !open_ then
-          (match RingSpec.spec_step cap !st o with
+          (match (match o with
+                  | Huge (amend, n) ->
+                    if BinInt.Z.ltb cap n then RingHuge.spec_huge_step !st amend
+                    else failwith "huge request not above the capacity"
+                  | Mlock -> Some (!st, (z_of_int 0, []))      (* the property: the stored bytes are untouched *)
+                  | Op o -> RingSpec.spec_step cap !st o) with
            | None -> open_ := true
            | Some (st', (ret, data)) ->
              st := st';
@@ -114,7 +141,8 @@ let () =
         else begin
           let ops = List.map (function Some o -> o | None -> assert false) ops in
           let size = z_of_string size in
-          Printf.printf "M %s\nS %s\n" (model_line size ops) (spec_line size ops)
+          (try Printf.printf "M %s\nS %s\n" (model_line size ops) (spec_line size ops)
+           with Failure _ -> Printf.printf "M ?\nS ?\n")
         end
       | ["K"; size] ->
         let size = z_of_string size in
